@@ -354,18 +354,32 @@ lookup_any!(c19_lookup_missing_freshness_proof, 9);
 lookup_any!(c19_lookup_missing_nonce, 10);
 
 /// 8. UpdateProof round trip, with and without the previous-version proof
-fn update_roundtrip(with_prev: bool) {
+fn update_roundtrip(with_prev: bool, vlen: usize, drop_field: usize) {
+    // vlen 0 is the tombstone (akd_core::TOMBSTONE = &[]): present in the message, empty
     let x = UpdateProof {
-        epoch: kani::any(), value: AkdValue(bytes(1)), version: kani::any(), existence_vrf_proof: bytes(2), existence_proof: any_mp(1),
+        epoch: kani::any(), value: AkdValue(bytes(vlen)), version: kani::any(), existence_vrf_proof: bytes(2), existence_proof: any_mp(1),
         previous_version_vrf_proof: if with_prev { Some(bytes(1)) } else { None },
         previous_version_proof: if with_prev { Some(any_mp(0)) } else { None },
         commitment_nonce: bytes(2),
     };
-    let m: pb::UpdateProof = (&x).into();
+    let mut m: pb::UpdateProof = (&x).into();
+    match drop_field {
+        1 => m.epoch = None,
+        2 => m.value = None,
+        3 => m.version = None,
+        4 => m.existence_vrf_proof = None,
+        5 => m.existence_proof = MessageField::none(),
+        6 => m.commitment_nonce = None,
+        _ => {}
+    }
     let y = UpdateProof::try_from(&m);
     match &y {
         Ok(p) => {
-            assert!(p.epoch == x.epoch && p.version == x.version && p.value.0.len() == 1 && p.value.0[0] == x.value.0[0]);
+            assert!(drop_field == 0, "update proof message with a missing required field accepted");
+            assert!(p.epoch == x.epoch && p.version == x.version && p.value.0.len() == vlen, "update proof changed by the protobuf round trip");
+            if vlen > 0 {
+                assert!(p.value.0[0] == x.value.0[0]);
+            }
             assert!(p.existence_vrf_proof.len() == 2 && p.existence_vrf_proof[1] == x.existence_vrf_proof[1] && p.commitment_nonce.len() == 2 && p.commitment_nonce[0] == x.commitment_nonce[0]);
             assert!(same_mp(&p.existence_proof, &x.existence_proof, 1));
             assert!(p.previous_version_vrf_proof.is_some() == with_prev && p.previous_version_proof.is_some() == with_prev);
@@ -374,22 +388,30 @@ fn update_roundtrip(with_prev: bool) {
                 assert!(same_mp(p.previous_version_proof.as_ref().unwrap(), x.previous_version_proof.as_ref().unwrap(), 0));
             }
         }
-        Err(_) => assert!(false, "update proof rejected after encoding"),
+        Err(_) => assert!(drop_field != 0, "update proof rejected after encoding"),
     }
-    kani::cover!(y.is_ok());
+    kani::cover!(y.is_ok() == (drop_field == 0));
     core::mem::forget((x, m, y));
 }
-#[kani::proof]
-#[kani::unwind(36)]
-#[kani::stub(alloc::fmt::format, crate::util::format_stub)]
-fn c19_update_roundtrip_with_prev() {
-    update_roundtrip(true);
+macro_rules! upd {
+    ($name:ident, $prev:expr, $vlen:expr, $drop:expr) => {
+        #[kani::proof]
+        #[kani::unwind(36)]
+        #[kani::stub(alloc::fmt::format, crate::util::format_stub)]
+        fn $name() {
+            update_roundtrip($prev, $vlen, $drop);
+        }
+    };
 }
-#[kani::proof]
-#[kani::unwind(36)]
-#[kani::stub(alloc::fmt::format, crate::util::format_stub)]
-fn c19_update_roundtrip_without_prev() {
-    update_roundtrip(false);
-}
+upd!(c19_update_roundtrip_with_prev, true, 1, 0);
+upd!(c19_update_roundtrip_without_prev, false, 1, 0);
+upd!(c19_update_roundtrip_tombstone_with_prev, true, 0, 0);
+upd!(c19_update_roundtrip_tombstone_without_prev, false, 0, 0);
+upd!(c19_update_missing_epoch, true, 1, 1);
+upd!(c19_update_missing_value, false, 1, 2);
+upd!(c19_update_missing_version, true, 1, 3);
+upd!(c19_update_missing_existence_vrf, false, 1, 4);
+upd!(c19_update_missing_existence_proof, true, 1, 5);
+upd!(c19_update_missing_nonce, false, 1, 6);
 
 include!("playback_c19.rs");
